@@ -575,26 +575,24 @@ func (d *Document) updateEndnotesFile() {
 
 // addFootnoteRelationship 添加脚注关系
 func (d *Document) addFootnoteRelationship() {
-	relationshipID := fmt.Sprintf("rId%d", len(d.relationships.Relationships)+1)
-
+	// 脚注部件由主文档部件引用，关系属于 word/_rels/document.xml.rels
 	relationship := Relationship{
-		ID:     relationshipID,
+		ID:     d.nextDocumentRelationshipID(),
 		Type:   "http://schemas.openxmlformats.org/officeDocument/2006/relationships/footnotes",
 		Target: "footnotes.xml",
 	}
-	d.relationships.Relationships = append(d.relationships.Relationships, relationship)
+	d.documentRelationships.Relationships = append(d.documentRelationships.Relationships, relationship)
 }
 
 // addEndnoteRelationship 添加尾注关系
 func (d *Document) addEndnoteRelationship() {
-	relationshipID := fmt.Sprintf("rId%d", len(d.relationships.Relationships)+1)
-
+	// 尾注部件由主文档部件引用，关系属于 word/_rels/document.xml.rels
 	relationship := Relationship{
-		ID:     relationshipID,
+		ID:     d.nextDocumentRelationshipID(),
 		Type:   "http://schemas.openxmlformats.org/officeDocument/2006/relationships/endnotes",
 		Target: "endnotes.xml",
 	}
-	d.relationships.Relationships = append(d.relationships.Relationships, relationship)
+	d.documentRelationships.Relationships = append(d.documentRelationships.Relationships, relationship)
 }
 
 // GetFootnoteCount 获取脚注数量
@@ -784,12 +782,11 @@ func (d *Document) saveSettings(settings *Settings) error {
 
 // addSettingsRelationship 添加设置文件关系
 func (d *Document) addSettingsRelationship() {
-	relationshipID := fmt.Sprintf("rId%d", len(d.relationships.Relationships)+1)
-
+	// settings.xml 由主文档部件引用，关系属于 word/_rels/document.xml.rels
 	relationship := Relationship{
-		ID:     relationshipID,
+		ID:     d.nextDocumentRelationshipID(),
 		Type:   "http://schemas.openxmlformats.org/officeDocument/2006/relationships/settings",
-		Target: "word/settings.xml",
+		Target: "settings.xml",
 	}
-	d.relationships.Relationships = append(d.relationships.Relationships, relationship)
+	d.documentRelationships.Relationships = append(d.documentRelationships.Relationships, relationship)
 }
